@@ -38,6 +38,8 @@ Definition leaf_close (a b : leaf (T:=Q)) : bool :=
   | LAbsD k x, LAbsD k' x' => Nat.eqb k k' && qsc x x'
   | LPwNorm n p w, LPwNorm n' p' w' => Nat.eqb n n' && Z.eqb p p' && qsc w w'
   | LPwInner n w vf, LPwInner n' w' vf' => Nat.eqb n n' && qsc w w' && qsc vf vf'
+  | LRe s, LRe s' | LIm s, LIm s' | LCMod s, LCMod s' | LCMod2 s, LCMod2 s' => space_eqb s s'
+  | LCModD q s x, LCModD q' s' x' => Bool.eqb q q' && space_eqb s s' && qsc x x'
   | _, _ => false
   end.
 
